@@ -4,12 +4,13 @@ package interp
 // prefixes still to run. Each worker owns a solver process; the path condition lives in the solver context.
 
 import (
-	"os"
 	"fmt"
 	"go/types"
 	"math/big"
+	"os"
 	"sort"
 	"strings"
+	"time"
 )
 
 // pathAbort ends the current path without a verdict (unsupported feature, budget, cut).
@@ -64,6 +65,7 @@ type pathCtx struct {
 	mapAll    bool
 	mapEpoch  int
 	steps     int
+	initDur   time.Duration
 	lastModel model
 	depth     int
 	// per-path statistics
